@@ -643,6 +643,45 @@ def d19():
         ):"""),
 ])
 
+
+@fix('D21', "fix: %, && and || on vectors and matrices are lowered and executed component-wise\n\nTyping accepts `a % b`, `a && b`, `a || b` for two vectors or two matrices of the\nsame shape, but FromOperation had no vector opcode for them (VECTOR_MOD was declared\nbut unused), so lowering died with KeyError.")
+def d21():
+    patch('nsl/LinearIR.py', [
+("""    VECTOR_CMP_EQ = 0x1_1105
+""", """    VECTOR_CMP_EQ = 0x1_1105
+
+    VECTOR_LG_OR = 0x1_1300
+    VECTOR_LG_AND = 0x1_1301
+"""),
+("""                op.Operation.DIV: OpCode.VECTOR_DIV,
+                op.Operation.CMP_GT: OpCode.VECTOR_CMP_GT,""",
+"""                op.Operation.DIV: OpCode.VECTOR_DIV,
+                op.Operation.MOD: OpCode.VECTOR_MOD,
+                op.Operation.LG_AND: OpCode.VECTOR_LG_AND,
+                op.Operation.LG_OR: OpCode.VECTOR_LG_OR,
+                op.Operation.CMP_GT: OpCode.VECTOR_CMP_GT,"""),
+])
+    patch('nsl/VM.py', [
+("""                        case LinearIR.OpCode.VECTOR_CMP_GT:
+                            localScope[ref] = [
+                                1 if x > y else 0 for x, y in zip(op1, op2)
+                            ]""",
+"""                        case LinearIR.OpCode.VECTOR_MOD:
+                            localScope[ref] = [x % y for x, y in zip(op1, op2)]
+                        case LinearIR.OpCode.VECTOR_LG_AND:
+                            localScope[ref] = [
+                                1 if x and y else 0 for x, y in zip(op1, op2)
+                            ]
+                        case LinearIR.OpCode.VECTOR_LG_OR:
+                            localScope[ref] = [
+                                1 if x or y else 0 for x, y in zip(op1, op2)
+                            ]
+                        case LinearIR.OpCode.VECTOR_CMP_GT:
+                            localScope[ref] = [
+                                1 if x > y else 0 for x, y in zip(op1, op2)
+                            ]"""),
+])
+
 if __name__ == '__main__':
     name = sys.argv[1]
     msg, f = FIXES[name]
